@@ -143,7 +143,7 @@ def contextualRules (cfg : Cfg) (cx : Cx) (b : Blk) : List (Err × Bool) :=
     (.targetMismatch, b.expTarget == b.target) ] ++
   unclesRules cfg cx b ++ commitRules cfg cx b ++
   [ (.daoCalc, b.daoCalcOk), (.invalidDao, b.daoEq) ] ++
-  rewardRules cfg cx b ++ extensionRules cfg b ++
+  rewardRules cfg cx b ++ extensionRules (cfg.forParentEpoch cx.parentEpochNumber) b ++
   [ (.txs, b.txsOk), (.exceededCycles, decide (b.cycles ≤ cfg.maxCycles)) ]
 
 def allRules (cfg : Cfg) (hcx : HeaderCx) (cx : Cx) (b : Blk) : List (Err × Bool) :=
@@ -219,7 +219,7 @@ theorem contextualCheck_eq (cfg : Cfg) (cx : Cx) (b : Blk) :
   simp only [List.append_assoc, firstFail_append, ← unclesCheck_eq, ← commitCheck_eq, ← rewardCheck_eq,
     ← extensionCheck_eq, firstFail]
   cases unclesCheck cfg cx b <;> cases commitCheck cfg cx b <;> cases rewardCheck cfg cx b <;>
-    cases extensionCheck cfg b <;> grind
+    cases extensionCheck (cfg.forParentEpoch cx.parentEpochNumber) b <;> grind
 
 theorem accept_eq (cfg : Cfg) (hcx : HeaderCx) (cx : Cx) (b : Blk) :
     accept cfg hcx cx b = firstFail (allRules cfg hcx cx b) := by
